@@ -16,6 +16,8 @@ ASSUMPTIONS = [
 
 BODY1 = (('op', 'X', 0, None),)
 BODY2 = (('op', 'X', 0, None), ('op', 'M', 1, None))
+BODY4 = (('op', 'M', 1, None), ('sub', 1, (('op', 'R', 0, None),)))   # a nested block next to a parallel leaf of another duration source
+BODY5 = (('sub', 1, (('op', 'X', 0, None),)), ('sub', 1, (('op', 'R', 1, None),)), ('op', 'X90', 2, ('FB', 0)))   # parallel nested blocks + follower
 BODY3 = (('op', 'B', 0, None), ('op', 'M', 1, None))   # a root of fixed length in front of a measurement (global length); repeated
 
 
@@ -27,9 +29,9 @@ def enabled(prefix):
     inside = False
     for ev in prefix:
         k = ev[0]
-        if k in ('add', 'sub', 'rel'):
+        if k in ('add', 'sub', 'rel', 'subreg'):
             live.append(n)
-            if k == 'sub':
+            if k in ('sub', 'subreg'):
                 blocks.append(n)
             n += 1
         elif k == 'flatten':
@@ -43,13 +45,13 @@ def enabled(prefix):
         elif k == 'exit':
             inside = False
     out = [('add', 'X', 0), ('add', 'R', 1), ('add', 'M', 0), ('add', 'Wreg', 0), ('add', 'B', 0),
-           ('sub', 2, BODY1), ('sub', 1, BODY2), ('sub', 2, BODY3)]
+           ('sub', 2, BODY1), ('sub', 1, BODY2), ('sub', 2, BODY3), ('sub', 2, BODY4), ('sub', 1, BODY5), ('subreg', BODY1)]
     for i in live:
         out.append(('rel', 'FB', i))
         out.append(('rel', 'JE', i))
     for i in blocks:
         out.append(('grow', i))
-    out += [('apply',), ('flatten',), ('nest',), ('setreg', 5.0)]
+    out += [('apply',), ('flatten',), ('nest',), ('setreg', 5.0), ('setrep', 3)]
     if inside:
         out.append(('exit',))
     else:
@@ -187,7 +189,7 @@ def signature(f):
     muts, plc = f['case']
     kinds = []
     for i, m in enumerate(muts):
-        kinds.append(m[0] if m[0] not in ('add', 'sub') else m[0] + ':' + (m[1] if m[0] == 'add' else str(m[1])))
+        kinds.append(m[0] if m[0] not in ('add', 'sub') else m[0] + ':' + (m[1] if m[0] == 'add' else str(m[1]) + '/' + str(len(m[2]))))
         for p, kind in plc:
             if p == i + 1:
                 kinds.append('obs:' + kind)
